@@ -15,6 +15,7 @@ import (
 	"fmt"
 	"io"
 	"log/slog"
+	"net"
 	"net/http"
 	"os"
 	"os/exec"
@@ -172,7 +173,7 @@ type env struct {
 	st   *quic.Transport
 	ln   *quic.EarlyListener
 	srv  *http3.Server
-	ct   *quic.Transport
+	ct   *clientCloser
 	tr   *http3.Transport
 	logs *logSink
 	done chan struct{} // ServeListener returned
@@ -228,32 +229,64 @@ func newServer(w *sim.World, o envOpts, logs *logSink) (*quic.Transport, *quic.E
 	return st, ln, srv, done, nil
 }
 
-// newClient builds the in-tree HTTP/3 client on the world's client endpoint.
-func newClient(w *sim.World, o envOpts, logs *logSink) (*quic.Transport, *http3.Transport, error) {
+// clientCloser closes the QUIC transports (and extra endpoints) under an http3.Transport.
+type clientCloser struct {
+	mu  sync.Mutex
+	trs []*quic.Transport
+	pcs []net.PacketConn
+}
+
+func (c *clientCloser) Close() {
+	c.mu.Lock()
+	defer c.mu.Unlock()
+	for _, t := range c.trs {
+		t.Close()
+	}
+	for _, p := range c.pcs {
+		p.Close()
+	}
+}
+
+// newClient builds the in-tree HTTP/3 client on the world's client endpoint. A spec-driven client gets a fresh
+// spec value AND a fresh quic.Transport on a new endpoint for every re-dial: the Chrome specs use zero-length
+// source connection IDs, and two connections with the same (empty) ID cannot share one transport while the closed
+// one is still being retained (known engine limit, see GUIDE; the redial property itself is C02's).
+func newClient(w *sim.World, o envOpts, logs *logSink) (*clientCloser, *http3.Transport, error) {
+	cc := &clientCloser{}
 	ct := &quic.Transport{Conn: w.ClientConn}
+	cc.trs = append(cc.trs, ct)
 	tr := &http3.Transport{TLSClientConfig: sim.ClientTLS(w.ClientKeys), QUICConfig: quicConf(o.Idle, o.CliWindow), DisableCompression: o.NoCompress}
 	if o.CliLogger {
 		tr.Logger = newLogger(logs)
 	}
 	if base, ok := strings.CutPrefix(o.Client, "spec:"); ok {
-		// a fresh spec value per dial (a Transport re-dials after a broken connection)
 		if _, err := (specgen.Desc{Base: base}).Build(); err != nil {
-			ct.Close()
+			cc.Close()
 			return nil, nil, err
 		}
+		dials := 0
 		tr.Dial = func(ctx context.Context, _ string, tc *tls.Config, qc *quic.Config) (*quic.Conn, error) {
 			spec, err := (specgen.Desc{Base: base}).Build()
 			if err != nil {
 				return nil, err
 			}
-			return (&quic.UTransport{Transport: ct, QUICSpec: spec}).Dial(ctx, sim.ServerAddr, tc, qc)
+			cc.mu.Lock()
+			dials++
+			t := ct
+			if dials > 1 {
+				pc := w.NewEndpoint(&net.UDPAddr{IP: net.ParseIP("1.0.0.1"), Port: 9500 + dials})
+				t = &quic.Transport{Conn: pc}
+				cc.trs, cc.pcs = append(cc.trs, t), append(cc.pcs, pc)
+			}
+			cc.mu.Unlock()
+			return (&quic.UTransport{Transport: t, QUICSpec: spec}).Dial(ctx, sim.ServerAddr, tc, qc)
 		}
 	} else {
 		tr.Dial = func(ctx context.Context, _ string, tc *tls.Config, qc *quic.Config) (*quic.Conn, error) {
 			return ct.Dial(ctx, sim.ServerAddr, tc, qc)
 		}
 	}
-	return ct, tr, nil
+	return cc, tr, nil
 }
 
 func newEnv(o envOpts) (*env, error) {
